@@ -161,9 +161,9 @@ def r06_3(ctx, fx):
         tests = fn.bool_tests(2)
         ctx.anchor("R06.3", "can_accept_connection: branch on is_listener", len(tests), 1, cfg=fx.cfg)
         if tests:
-            sw, t, f = tests[0]
-            limit_cmp(ctx, fx, fn, "R06.3", "can_accept_connection", "incoming_connections", "max_incoming_connections", "MaxIncomingConnectionsExceeded", side_cut=[(sw, f)])
-            limit_cmp(ctx, fx, fn, "R06.3", "can_accept_connection", "outgoing_connections", "max_outgoing_connections", "MaxOutgoingConnectionsExceeded", side_cut=[(sw, t)])
+            # the parameter is immutable: every test of it (also `!is_listener`, `is_listener && ..`) decides the same direction
+            limit_cmp(ctx, fx, fn, "R06.3", "can_accept_connection", "incoming_connections", "max_incoming_connections", "MaxIncomingConnectionsExceeded", side_cut=[(sw, f) for sw, t, f in tests])
+            limit_cmp(ctx, fx, fn, "R06.3", "can_accept_connection", "outgoing_connections", "max_outgoing_connections", "MaxOutgoingConnectionsExceeded", side_cut=[(sw, t) for sw, t, f in tests])
     fn = ctx.fn(fx, L + "on_incoming", "R06.3")
     if fn is not None:
         limit_cmp(ctx, fx, fn, "R06.3", "on_incoming", "incoming_connections", "max_incoming_connections", "MaxIncomingConnectionsExceeded")
@@ -177,16 +177,17 @@ def r06_4(ctx, fx):
     if fn is None:
         return
     # stores of a handle: HashMap::insert on .connections (primary) and assignment to `.secondary`
-    ins = field_calls(fn, r"HashMap::insert$", "connections")
+    from common import map_inserts, map_presence_edges
+    ins = map_inserts(fn, "connections")
     sec = [n for n, s in fn.assigns() if "".join(s["lhs"][1:]).endswith(".secondary")]
     ctx.anchor("R06.4", "handle stores (primary insert, secondary assign)", min(len(ins), 1) + min(len(sec), 1), 2, cfg=fx.cfg)
-    gm = field_calls(fn, r"HashMap::get_mut$", "connections")
-    ctx.anchor("R06.4", "connections.get_mut", len(gm), 1, cfg=fx.cfg)
+    present, absent = map_presence_edges(fn, "connections")
+    ctx.anchor("R06.4", "connections.get_mut", min(len(present), len(absent)), 1, cfg=fx.cfg)
+    gm = bool(present) and bool(absent)
     if gm:
         for c in ins:
-            cuts = refine_cuts(fn, gm[0], ["Some", "?"])
-            r = fn.reach([gm[0].node], cut=cuts, after=True)
-            ctx.ob("R06.4", "TransportService::on_connection_established/primary-insert-only-if-peer-unknown", c.node not in r, site=fn.site(c.node), cfg=fx.cfg)
+            # the store of a primary handle lies behind the edge on which the peer is known to be absent (get_mut None / Entry::Vacant)
+            ctx.ob("R06.4", "TransportService::on_connection_established/primary-insert-only-if-peer-unknown", c.node not in fn.reach([fn.entry], cut=absent), site=fn.site(c.node), cfg=fx.cfg)
         for sw in fn.discr_switches():
             if "".join(map(str, sw[1])).endswith(".secondary"):
                 for n in sec:
